@@ -138,7 +138,7 @@ class Check(common.Check):
     LEAN_DIRS = ['Sc3Verif/C18']
     THEOREMS = []
     N_QUICK = 1500
-    N_THOROUGH = 20000
+    N_THOROUGH = 60000
     ASSUMPTIONS = [
         "CPython's re engine decides membership for the fragment the rewritten texts reach (literals, escapes, '.', '.*', (?:|), sets); the model implements that fragment of re/_parser.py and is compared with the real re on every run",
         "callbacks are opaque (they do not themselves create/enable/disable responders), except the one-shot wrapper the library builds, which frees its responder",
